@@ -577,8 +577,12 @@ def dispatch_ast(d):
          'zz': MC(t, 'zz', [I(1)]), 'field': GF(t, 'tag'), 'fieldm': GF(t, 'm'),
          'eqnull': Op('==', t, N()), 'ne5': Op('!=', t, I(5)), 'feq': MC(t, 'eq', [N()]), 'fneq': MC(t, 'neq', [I(5)]), 'add1': MC(t, 'add', [I(1)]),
          'plus0': MC(t, '+', []), 'plus2': MC(t, '+', [I(1), I(2)]), 'lt3': MC(t, '<', [I(1), I(2), I(100)]),
-         'gt1': Op('>', t, I(1)), 'ge1': Op('>=', t, I(1))}[call]
-    es += [Pr('r=~\\n', [c]), Pr('t=~\\n', [t]), Pr('after\\n')]
+         'gt1': Op('>', t, I(1)), 'ge1': Op('>=', t, I(1)),
+         'plus_stmt': Op('+', t, I(1)), 'm1_stmt': MC(t, 'm', [I(10)]), 'setindex_stmt': SIx(t, I(1), I(9))}[call]
+    if call.endswith('_stmt'):
+        es += [c, Blk([c, Pr('in block\\n')]), Pr('t=~\\n', [t]), Pr('after\\n')]       # statement position, plain operands: the value is discarded, the call is not
+    else:
+        es += [Pr('r=~\\n', [c]), Pr('t=~\\n', [t]), Pr('after\\n')]
     return Top(es)
 
 
@@ -727,6 +731,10 @@ FAULTS = {
     'duplicate-field': lambda: Obj(N(), [Let('q', I(1)), Let('q', I(2))]),
     'duplicate-method': lambda: Obj(N(), [Fun('q', [], I(1)), Fun('q', [], I(2))]),
     'operator-on-array': lambda: Op('==', V('ar'), V('ar')),
+    # fields are not inherited: only methods are looked up along the parent chain
+    'inherited-field-read': lambda: GF(V('kid'), 'fld'),
+    'inherited-field-assign': lambda: SF(V('kid'), 'fld', I(11)),
+    'inherited-field-of-grandparent': lambda: GF(Obj(V('kid'), [Let('own', I(1))]), 'fld'),
 }
 POSITIONS = ['top', 'block', 'loop', 'fun', 'meth', 'arg', 'cond', 'field-init', 'array-init']
 
@@ -734,7 +742,7 @@ POSITIONS = ['top', 'block', 'loop', 'fun', 'meth', 'arg', 'cond', 'field-init',
 def fault_program(fault, position):
     f = FAULTS[fault]()
     at = lambda p: ([f] if p == position else [])
-    es = [Fun('fn', ['a'], V('a')), Let('ob', Obj(N(), [Let('fld', I(1)), Fun('me', ['a'], V('a'))])), Let('ar', Arr(I(2), I(0))),
+    es = [Fun('fn', ['a'], V('a')), Let('ob', Obj(N(), [Let('fld', I(1)), Fun('me', ['a'], V('a'))])), Let('ar', Arr(I(2), I(0))), Let('kid', Obj(V('ob'), [Let('mine', I(2))])),
           Fun('g', [], Blk([Pr('F\\n')] + at('fun') + [Pr('G\\n'), I(0)])),
           Let('h', Obj(N(), [Fun('k', [], Blk([Pr('H\\n')] + at('meth') + [Pr('I\\n'), I(0)]))])),
           Pr('A\\n')] + at('top') + [Pr('B\\n'),
@@ -829,6 +837,17 @@ def c10(tier):
         ast = fault_program(f, p)
         progs.append({'name': 'fault:%s@%s' % (f, p), 'text': unparse(ast), 'ast': strip_marks(ast)})
     progs += pool.random_programs(tier_sizes(tier, 60, 1500), base_seed=seed() * 9973 + 1, fault_rate=0.3, tag='faulty')
+    # faults of the whole program (the README semantics rejects these before anything runs, wherever the offending definition stands)
+    for n, t in [('static:function-defined-twice', 'print("a\\n"); function f() -> 1; function f() -> 2; print("~\\n", f())'),
+                 ('static:function-defined-twice-other-arity', 'function f() -> 1; print("a\\n"); function f(a) -> 2; print("~\\n", f())'),
+                 ('static:function-defined-twice-unused', 'print("a\\n"); function unused() -> 1; function unused() -> 1'),
+                 ('static:global-defined-twice', 'let v = 1; print("a\\n"); let v = 2; print("~\\n", v)'),
+                 ('static:local-defined-twice', 'function f() -> begin let v = 1; let v = 2; v end; print("a\\n"); print("~\\n", 7)'),
+                 ('static:parameter-defined-twice', 'function f(a, a) -> a; print("a\\n")'),
+                 ('static:function-and-global-of-one-name', 'function f() -> 1; let f = 2; print("~ ~\\n", f(), f)'),
+                 ('static:call-of-undefined-function-in-unused-code', 'function report(x) -> log_value(x); function sq(x) -> x * x; print("~\\n", sq(7))'),
+                 ('static:read-of-undefined-global-in-unused-code', 'function report() -> nosuchglobal; print("~\\n", 49)')]:
+        progs.append({'name': n, 'text': t, 'ast': None})
     progs += deep_programs(tier)
     base = pool.random_programs(tier_sizes(tier, 80, 2500), base_seed=seed() * 4049 + 9, fault_rate=0.0, tag='mut')
     from unparse import tokens_of, classify
@@ -840,7 +859,7 @@ def c10(tier):
         mutated_tokens[len(progs)] = toks
         progs.append({'name': 'mutated:' + b['name'], 'text': ' '.join(toks), 'ast': None})
     # in-process pass gives ASTs (parser's for ast-less texts) and compiled bytes
-    recs = [{'id': i, 'text': p['text'], 'want': ['ast'], 'budget': 10} for i, p in enumerate(progs)]
+    recs = [{'id': i, 'text': p['text'], 'want': ['ast', 'run'], 'budget': 10} for i, p in enumerate(progs)]        # (run with a budget of 10 instructions: only to learn whether the program can be started at all)
     outs = run_harness(exe, 'run', recs, wd, tag='c10h')
     # token-mutated sources: the TLA+ grammar (FMLParser) says which are programs; the real parser must agree (then its tree is the tree the grammar prescribes)
     trecs = []
@@ -902,7 +921,8 @@ def c10(tier):
                 # no AST: the parser rejected the text (or died): judged at process level only; large programs: termination rules only
                 pobs.append({'id': j, 'rule': 'clean' if p.get('large') else 'reject', 'exit': rc if rc >= 0 else 128 - rc, 'signaled': signaled, 'outlen': len(so), 'errempty': len(se) == 0})
                 continue
-            if status == 'fail' and action == 'run' and (o.get('parse') != 'ok' or o.get('compile') != 'ok' or (o.get('run') or {}).get('init', 'ok') != 'ok'):
+            # a process that stops before the program starts (parser, compiler, or the VM refusing to start it, e.g. a function defined twice) is a rejection
+            if status == 'fail' and (o.get('parse') != 'ok' or o.get('compile') != 'ok' or (o.get('run') or {}).get('init', 'ok') != 'ok'):
                 status = 'reject'
             srecs.append(srctrace.source_record(j, ast, status, list(so), proc={'errempty': len(se) == 0}))
     log('[c10] %d subprocess observations, %.0fs' % (len(meta), time.time() - chk.t0))
